@@ -29,6 +29,9 @@ def run(ctx):
     ctx.guard(normalise, ctx)
     ctx.guard(kwargs_rule, ctx)
     ctx.guard(typecase, ctx, ['xtuml.meta'], 'C10-TYPECASE')
+    from . import c03 as _c03
+    from .common import AssocModel as _AM
+    ctx.shared(_c03.keys, ctx, _AM(ctx.repo))   # identifying attributes are addressed by the association's spelling in the index keys
     ctx.assume('attribute values live in instance.__dict__ under the declared spelling (MetaClass.new sets '
                'every declared attribute), so a second cell can only appear through the three dunder methods')
     return ('Abstract execution of Class.__getattr__/__setattr__/__delattr__ over every combination of '
